@@ -10,6 +10,32 @@ def sigfn(v, o):
     return "C02 %s %s %s" % (v["fam"], what, common.crash_sig(o))
 
 
+NAME_VALUES = [{"t": "str", "s": list(x.encode())} for x in
+               ("", "inc", "missing", "/inc", "a/../inc", "inc/", ".", "..", "sub", "sub/x", "//", " ", "\u00e9", "inc\u0000x", "a" * 300)] \
+    + [{"t": "null"}, {"t": "bool", "b": False}, {"t": "bool", "b": True}, {"t": "num", "q": 64}, {"t": "arr", "els": []},
+       {"t": "hash", "pairs": []}]
+LOADING = {
+    "include": "A{% include n %}B", "include-only": "A{% include n with {a: 1} only %}B", "extends": "{% extends n %}{% block b %}x{% endblock %}",
+    "embed": "A{% embed n %}{% block b %}x{% endblock %}{% endembed %}B", "use": "{% use n %}{{ block('b') }}",
+    "import": "{% import n as L %}{{ L.m() }}", "from": "{% from n import m %}{{ m() }}",
+}
+
+
+def loader_cases():
+    """every template-loading construct x the library's own loaders x names that are empty, missing, odd or not strings"""
+    out = []
+    files = {"inc": "I{% block b %}ib{% endblock %}{% macro m() %}M{% endmacro %}", "sub/x": "S{% block b %}sb{% endblock %}{% macro m() %}M{% endmacro %}"}
+    for kind, src in LOADING.items():
+        for loader in ("memory", "fs", ""):
+            for i, nv in enumerate(NAME_VALUES):
+                srcs = {"main": list(src.encode())}
+                srcs.update({k: list(v.encode()) for k, v in files.items()})
+                out.append({"id": "C02-ld-%s-%s-%d" % (kind, loader or "rec", i), "k": "render", "env": "core", "srcs": srcs, "entry": "main",
+                            "ctx": {"n": nv}, "loader": loader, "nolog": True, "fam": "loaders", "x": {"form": kind + "/" + (loader or "rec")},
+                            "tpls": {}})
+    return out
+
+
 def check(run, only=None):
     run.rule = ("ops: 25 binary operators and 36 other forms (unary, conditional, tests, attribute/method access with right and wrong "
                 "arity, calls, filters, for with and without key/inline condition, ranges, if, set, interpolation, array/hash "
@@ -17,14 +43,16 @@ def check(run, only=None):
                 "negative/fraction/large, strings incl. multi-byte, arrays, hashes, and Go fixtures: slices, maps with int keys, "
                 "structs, pointers, nil pointers, Stringer, int8/uint64, decimal, safe values, func, chan); filters: 31 built-in Twig "
                 "filters x 39 piped values x 0..2 arguments from 11 values (seeded stride in quick, all in thorough), as expression "
-                "and as filter section; non-trivial = operand is not a plain literal of matching type (every case here)")
+                "and as filter section; loaders: 7 template-loading forms x the library's MemoryLoader and FilesystemLoader (and the "
+                "harness's) x 21 name values (empty, missing, absolute, with .., a directory, blank, non-ASCII, NUL, 300 bytes, null, "
+                "booleans, a number, an empty list and hash); non-trivial = operand is not a plain literal of matching type (every case here)")
     run.assumptions = ["harness callbacks and fixture methods never panic; ranges stay below 10^6 elements",
                        "only termination (output or error) is observed; values are C05's subject"]
     if only is not None:
         vecs = only
     else:
         r = common.run_tlc("C02", "C02_thorough" if run.tier == "thorough" else "C02", env={"VERIF_SEED": run.seed}, timeout=3000, heap="10g")
-        vecs = r["lines"]
+        vecs = r["lines"] + loader_cases()
     obs, hooks = common.run_pool(vecs, deadline_ms=10000)
     run.hooks = hooks
     for v in vecs:
